@@ -613,7 +613,7 @@ func RuleF1F2(which ...string) Rule {
 		c.Rule("F2", "both traces equal the schedule of the Verkle specification frozen in tables/schedule.txt")
 		spec := c.specSchedules()
 		type pair struct {
-			name             string
+			name               string
 			prel, pn, vrel, vn string
 		}
 		pairs := []pair{{"multiproof", "", "CreateMultiProof", "", "CheckMultiProof"}, {"ipa", "ipa", "CreateIPAProof", "ipa", "CheckIPAProof"}}
